@@ -14,12 +14,17 @@ from common import b2f, f2b, fl
 
 def gen_ops(rng, numel, length):
     ops = []
+    small_at = None
     for _ in range(length):
         x = rng.random()
         if x < 0.3:
             ops.append(("t", rng.normal(size=3) * 10.0 ** rng.integers(-3, 0)))
         elif x < 0.6:
             ypr = rng.uniform(-np.pi, np.pi, size=3)
+            if rng.random() < 0.3:
+                # a slight misalignment (1e-5 .. 5e-3 rad per axis, some axes not at all): still a rotation
+                ypr = rng.choice([-1.0, 1.0], size=3) * 10.0 ** rng.uniform(-5, np.log10(5e-3), size=3) * (rng.random(3) < 0.7)
+                small_at = len(ops)
             centre = None if rng.random() < 0.4 else rng.normal(size=3) * 1e-2
             ops.append(("r", ypr, centre))
         elif x < 0.68:
@@ -31,6 +36,8 @@ def gen_ops(rng, numel, length):
             ops.append(("toO",))
         else:
             ops.append(("reset",))
+    if small_at is not None and not any(o[0] == "reset" for o in ops[small_at:]) and rng.random() < 0.7:
+        ops.append(("reset",))
     return ops
 
 
